@@ -114,3 +114,19 @@ Proof.
   - exact (built_overlapping_linear V veqb Hv nfb pvs A Hb Hs B h Hh).
 Qed.
 Print Assumptions bw_standard_scans_linear_for_every_built_automaton.
+
+(* ... and every standard search on EVERY built character-wise automaton terminates with a result *)
+Theorem cw_standard_searches_terminate_for_every_built_automaton :
+  forall (V : Type) (veqb : V -> V -> bool), (forall a b, veqb a b = true <-> a = b) ->
+  forall nfb (pvs : list (list N * V)) (A : cw_automaton V),
+    4 * total_len V pvs <= U32_MAX - 1 ->
+    cw_build_with_values V Standard nfb pvs = Ok A ->
+  forall cs : list N, Forall scalar cs ->
+    is_ok (cw_find_iter V A (encode_utf8 cs)) = true /\ is_ok (cw_find_overlapping_iter V A (encode_utf8 cs)) = true
+    /\ is_ok (cw_find_overlapping_no_suffix_iter V A (encode_utf8 cs)) = true.
+Proof.
+  intros V veqb Hv nfb pvs A Hs HA cs Hc.
+  rewrite (cw_built_find V veqb Hv nfb pvs A Hs HA cs Hc), (cw_built_overlapping V veqb Hv nfb pvs A Hs HA cs Hc),
+          (cw_built_nosuffix V veqb Hv nfb pvs A Hs HA cs Hc). auto.
+Qed.
+Print Assumptions cw_standard_searches_terminate_for_every_built_automaton.
